@@ -1,6 +1,11 @@
 """Source of MANIFEST.json (bin/mkmanifest)."""
 
-NOTES = "Contract-based deductive verification of the real code: see DESIGN.md. Exit codes of bin/check: 0 held, 1 VIOLATION, 2 undecided (never a violation), 3 checker error."
+NOTES = ("Contract-based deductive verification of the real code: see DESIGN.md (section 0 = as built). Exit codes of bin/check: 0 held, 1 VIOLATION, 2 undecided (never a violation), 3 checker error. "
+         "Common to every check: the contracts carry a default frame (no store into caller-owned arrays / tables / record arrays; a store refutes the obligation, back end FRAME), preconditions of library calls on caller data "
+         "(increasing abscissa for np.interp / interp1d(assume_sorted=True)) are obligations (back end PRE), objects under contract are built by the real constructor and their public fields reassigned afterwards, "
+         "the CAS numeric pass evaluates the corners of every parameter box, each obligation has a CPU budget (exhausted = undecided) and the hash seed is pinned. Clauses that depend on floating-point rounding or on an "
+         "optimiser / iterative routine are decided by the bounded run-time layer only and are labelled bounded in the evidence. Seeded changes (4 rounds by independent sub-agents + reverted fixes) and behaviour-preserving "
+         "changes with the checks that report them: seeded/RESULTS.jsonl, seeded_equivalent/RESULTS.jsonl, DESIGN.md 0.6.")
 
 _PENDING = "check not built yet in this round (contracts planned in DESIGN.md section 3); will move to checks when its obligations are discharged"
 
